@@ -372,6 +372,17 @@ func main() {
 	fmt.Fprintf(&b, "  uniqifyCaseInsensitive := %v\n", uniqifyCaseInsensitive)
 	fmt.Fprintf(&b, "  mapRanges := %s\n", leanStrList(ranges))
 	fmt.Fprintf(&b, "  paramsForMethods := %s\n", leanStrList(paramsForMethods))
+	// control skeletons of the functions that orchestrate Flatten (skeleton.go)
+	b.WriteString("  skeletons := [\n")
+	skNames := []string{"Flatten", "expand", "importReferences", "stripPointersAndOAIGen", "removeUnused", "removeUnusedShared"}
+	for i, n := range skNames {
+		sep := ","
+		if i == len(skNames)-1 {
+			sep = ""
+		}
+		fmt.Fprintf(&b, "    (%s, %s)%s\n", leanStr(n), leanStrList(skeletonOf(root, n)), sep)
+	}
+	b.WriteString("  ]\n")
 	_ = sort.Strings
 
 	if *out == "" {
